@@ -771,9 +771,12 @@ J_format(e) ==
        \o (IF a.named # "" THEN V("named-composition", ItemKinds(a.items) = NamedFormat(a.named), a.named) ELSE <<>>)
        \o (IF e.post.k = "exc" THEN << <<"unexpected-exception", e.post.names>> >>
            ELSE IF e.post.k # "str" THEN << <<"kind", e.post.k>> >>
-           ELSE V("output", e.post.v = want, want)))
+           ELSE V((IF \E i \in 1..Len(a.items) : a.items[i][1] = "tok" /\ a.items[i][2] \in ExtTokens
+                   THEN "x-output-undocumented-token" ELSE "output"), e.post.v = want, want)))
 HasAny(ts, set) == ts \cap set # {}
-CompleteFormat(ts) == /\ HasAny(ts, {"YYYY", "Y"}) /\ HasAny(ts, {"MM", "M", "MMMM", "MMM"}) /\ HasAny(ts, {"DD", "D", "Do"})
+\* a full date: year + month + day, or year + day of the year
+CompleteFormat(ts) == /\ HasAny(ts, {"YYYY", "Y"})
+                      /\ ((HasAny(ts, {"MM", "M", "MMMM", "MMM"}) /\ HasAny(ts, {"DD", "D", "Do"})) \/ HasAny(ts, {"DDDD", "DDD"}))
                       /\ (HasAny(ts, {"HH", "H"}) \/ (HasAny(ts, {"hh", "h"}) /\ "A" \in ts))
                       /\ HasAny(ts, {"mm", "m"}) /\ HasAny(ts, {"ss", "s"}) /\ "SSSSSS" \in ts /\ HasAny(ts, {"Z", "ZZ", "z"})
 J_from_format(e) ==
